@@ -120,11 +120,17 @@ type c09Obs struct {
 
 // ---------------------------------------------------------------- proxy
 
+type c09Leg struct {
+	c, s net.Conn // client leg, server leg
+	hold atomic.Bool
+}
+
 type c09Proxy struct {
 	lis    net.Listener
 	target string
 	mx     sync.Mutex
-	conns  []net.Conn
+	conns  []*c09Leg
+	held   []*c09Leg
 	closed atomic.Bool
 }
 
@@ -149,10 +155,17 @@ func (p *c09Proxy) loop() {
 			c.Close()
 			continue
 		}
+		l := &c09Leg{c: c, s: s}
 		p.mx.Lock()
-		p.conns = append(p.conns, c, s)
+		p.conns = append(p.conns, l)
 		p.mx.Unlock()
-		go func() { io.Copy(s, c); s.Close(); c.Close() }()
+		go func() {
+			io.Copy(s, c)
+			c.Close()
+			if !l.hold.Load() {
+				s.Close()
+			}
+		}()
 		go func() { io.Copy(c, s); s.Close(); c.Close() }()
 	}
 }
@@ -163,8 +176,34 @@ func (p *c09Proxy) Cut() {
 	cs := p.conns
 	p.conns = nil
 	p.mx.Unlock()
-	for _, c := range cs {
-		c.Close()
+	for _, l := range cs {
+		l.c.Close()
+		l.s.Close()
+	}
+}
+
+// CutClientSide closes the client legs only: the server keeps a half-open
+// connection until ReleaseHeld.
+func (p *c09Proxy) CutClientSide() {
+	p.mx.Lock()
+	cs := p.conns
+	p.conns = nil
+	p.held = append(p.held, cs...)
+	p.mx.Unlock()
+	for _, l := range cs {
+		l.hold.Store(true)
+		l.c.Close()
+	}
+}
+
+// ReleaseHeld lets the server see the end of the half-open connections.
+func (p *c09Proxy) ReleaseHeld() {
+	p.mx.Lock()
+	cs := p.held
+	p.held = nil
+	p.mx.Unlock()
+	for _, l := range cs {
+		l.s.Close()
 	}
 }
 
@@ -172,6 +211,7 @@ func (p *c09Proxy) Close() {
 	p.closed.Store(true)
 	p.lis.Close()
 	p.Cut()
+	p.ReleaseHeld()
 }
 
 // ---------------------------------------------------------------- source wrapper
@@ -642,10 +682,16 @@ func c09Exec(in *C09Input) (obs *c09Obs) {
 				st.Timeout = true
 				obs.Stuck = true
 			}
-		case "drop":
+		case "drop", "halfdrop":
 			tick := p.cli.Mach.Tick(ssrpc.ClientStates.HandshakeDone)
 			t0 := time.Now()
-			p.proxy.Cut()
+			if op.Kind == "halfdrop" {
+				// the client's side dies first; the server notices the end of the
+				// old connection only after the client has reconnected
+				p.proxy.CutClientSide()
+			} else {
+				p.proxy.Cut()
+			}
 			// wait for a new handshake
 			deadline := time.Now().Add(3 * time.Second)
 			for time.Now().Before(deadline) {
@@ -664,6 +710,11 @@ func c09Exec(in *C09Input) (obs *c09Obs) {
 					}
 					time.Sleep(2 * time.Millisecond)
 				}
+			}
+			if op.Kind == "halfdrop" {
+				p.proxy.ReleaseHeld()
+				time.Sleep(30 * time.Millisecond)
+				st.SrvReady = st.SrvReady && p.srv.Mach.Is1(ssrpc.ServerStates.Ready)
 			}
 			st.WaitMs = int(time.Since(t0).Milliseconds())
 			time.Sleep(2 * c09Ticker)
@@ -752,7 +803,7 @@ func c09Coq(in *C09Input, obs *c09Obs) string {
 			step = "OPush"
 		case "sync":
 			step = "OSync"
-		case "drop":
+		case "drop", "halfdrop":
 			step = fmt.Sprintf("(ODrop %s %s)", coqBool(st.Rehello), coqBool(st.SrvReady))
 		default:
 			step = "ONoop"
@@ -802,7 +853,11 @@ func c09GenOps(r *Rng, in *C09Input, n int, pLocal, pClient, pPush, pSync, pDrop
 		case x < pLocal+pClient+pPush+pSync:
 			in.Ops = append(in.Ops, C09Op{Kind: "sync"})
 		case x < pLocal+pClient+pPush+pSync+pDrop:
-			in.Ops = append(in.Ops, C09Op{Kind: "drop"})
+			if r.Chance(30) {
+				in.Ops = append(in.Ops, C09Op{Kind: "halfdrop"})
+			} else {
+				in.Ops = append(in.Ops, C09Op{Kind: "drop"})
+			}
 		default:
 			in.Ops = append(in.Ops, C09Op{Kind: "race", Mut: muts[r.Intn(len(muts))], States: states(),
 				Mut2: muts[r.Intn(len(muts))], States2: states()})
@@ -911,7 +966,7 @@ func c09Describe(in *C09Input, obs *c09Obs, out *Out) {
 func c09Flaky(in *C09Input, obs *c09Obs) bool {
 	for i, st := range obs.Steps {
 		k := in.Ops[i].Kind
-		if (k == "local" || k == "client" || k == "sync" || k == "drop") && st.Pushes != 0 {
+		if (k == "local" || k == "client" || k == "sync" || k == "drop" || k == "halfdrop") && st.Pushes != 0 {
 			return true
 		}
 	}
